@@ -20,5 +20,14 @@ let deep_doc (shape : str) (d : int) =
      if shape = "mixed" then
        for i = d - 1 downto 0 do Buffer.add_string b (if i mod 2 = 0 then " ]" else "}") done
    | "wide_deep" -> rep d "[1,"; Buffer.add_string b "[]"; rep d ",2]"
+   (* long rather than deep: one run of d characters of a kind *)
+   | "ws_run" -> rep d " "; Buffer.add_string b "[1"; rep d "\n"; Buffer.add_string b ",\t2"; rep d "\r"; Buffer.add_string b "]"; rep d "\t"
+   | "ws_run_open" -> Buffer.add_string b "{\"k\""; rep d " "
+   | "long_string" -> Buffer.add_string b "[\""; rep d "a"; Buffer.add_string b "\",\""; rep d "\\n"; Buffer.add_string b "\"]"
+   | "long_string_open" -> Buffer.add_string b "\""; rep d "\\u00e9"
+   | "long_number" -> Buffer.add_string b "[-1"; rep d "0"; Buffer.add_string b "."; rep d "5"; Buffer.add_string b "e-1"; rep d "7"; Buffer.add_string b "]"
+   | "long_number_bad" -> Buffer.add_string b "1"; rep d "0"; Buffer.add_string b "."
+   | "wide_arr" -> Buffer.add_string b "[0"; rep d ",0"; Buffer.add_string b "]"
+   | "wide_obj" -> Buffer.add_string b "{\"a\":0"; rep d ",\"a\":0"; Buffer.add_string b "}"
    | _ -> Buffer.add_string b "null");
   s2l_ascii (Buffer.contents b)
